@@ -28,6 +28,10 @@ THEOREMS = ["hint_roundtrip", "writeTo_too_long", "enc_bytes", "payload_magic_sa
 # the fixed go/token.FileSet shared with harness/cmd/gvh_c19/lines.go (fileSpecs): name, size, line start offsets
 FILES = [("a.go", 500, list(range(0, 500, 25))), ("pkg/b.go", 300, list(range(0, 300, 17))), ("c.go", 100, [0, 1, 2, 50, 99])]
 KNOWN_JS = "C19 WriteJS first-line column not shifted (JS text starts at column != 0)"
+KNOWN_IF = "C19 if statement has no mapping (position overwritten by NoPos of the synthetic case clause)"
+KNOWN_SWITCH = "C19 switch tag evaluation has no mapping (synthetic assignment without position)"
+KNOWN_CLOSURE = "C19 call of a function literal: the call after the literal body has no mapping (NoPos hint ends the inner statement list)"
+KNOWN_NUMBERIC = "C19 original file missing: compiler/prelude/numberic.js (misspelt name of numeric.js)"
 
 
 def hx(b):
@@ -361,6 +365,478 @@ def ctx_tie(chk, tier):
     return len(ops)
 
 
+# --------------------------------------------------------------------------------------
+# program level
+# --------------------------------------------------------------------------------------
+
+B64 = "ABCDEFGHIJKLMNOPQRSTUVWXYZabcdefghijklmnopqrstuvwxyz0123456789+/"
+B64I = {c: i for i, c in enumerate(B64)}
+
+
+def decode_map(text):
+    """source map v3 -> (map json, [(genLine0, genCol, source|None, origLine0, origCol, name|None)]) in file order"""
+    m = json.loads(text)
+    res = []
+    src = ol = oc = nm = 0
+    for gl, line in enumerate(m["mappings"].split(";")):
+        gc = 0
+        if not line:
+            continue
+        for seg in line.split(","):
+            vals, v, sh = [], 0, 0
+            for ch in seg:
+                d = B64I[ch]
+                v += (d & 31) << sh
+                if d & 32:
+                    sh += 5
+                    continue
+                vals.append(-(v >> 1) if v & 1 else v >> 1)
+                v, sh = 0, 0
+            gc += vals[0]
+            if len(vals) >= 4:
+                src += vals[1]
+                ol += vals[2]
+                oc += vals[3]
+                name = None
+                if len(vals) >= 5:
+                    nm += vals[4]
+                    name = m["names"][nm]
+                res.append((gl, gc, m["sources"][src], ol, oc, name))
+            else:
+                res.append((gl, gc, None, None, None, None))
+    return m, res
+
+
+INC_JS = """// helper for the C19 check
+function jsStack(n) {
+    switch (n) {
+    case 1:
+        try { throw new Error("x"); } catch (e) { return e.stack; }
+    default:
+        for (var i = 0; i < 1; i++) { n = typeof n; }
+    }
+    return Error().stack;
+}
+this.jsStack = jsStack;
+"""
+
+PANICS = ["index", "index-if", "index-return", "index-multiline", "panic", "nilmap", "divide", "nilptr", "index-call", "index-for", "index-switch",
+          "index-elseif", "index-closure"]
+
+
+class ProgGen:
+    """Go programs whose statements carry unique markers, with a call chain ending in a run-time panic."""
+
+    def __init__(self, rng, with_inc, blocking):
+        self.rng = rng
+        self.lines = []
+        self.marker = 1000
+        self.probes = []      # (line, kind, marker)   kind: exact | contains
+        self.chain = []       # expected main.go lines of the stack, innermost first
+        self.unmapped = {}    # line -> signature of the recorded defect that leaves this statement without mapping
+        self.with_inc = with_inc
+        self.blocking = blocking
+        self.indent_unit = rng.choice(["\t", "\t", "    "])
+
+    def emit(self, depth, text):
+        self.lines.append(self.indent_unit * depth + text)
+        return len(self.lines)
+
+    def mk(self):
+        self.marker += 1
+        return self.marker
+
+    def stmts(self, depth, n, budget):
+        rng = self.rng
+        for _ in range(n):
+            k = rng.random()
+            if k < 0.3:
+                m = self.mk()
+                txt = rng.choice(['println("m%d")', 'println("m%d")', 'println("héllo·", "m%d")'])
+                l = self.emit(depth, txt % m)
+                self.probes.append((l, "exact" if "llo" not in txt else "contains", m))
+            elif k < 0.5:
+                m = self.mk()
+                l = self.emit(depth, "v = v + %d" % m)
+                self.probes.append((l, "contains", m))
+            elif k < 0.58:
+                m = self.mk()
+                l = self.emit(depth, "v = v +")
+                self.emit(depth + 2, "%d" % m)
+                self.probes.append((l, "contains", m))
+            elif k < 0.7 and budget > 0:
+                m = self.mk()
+                l = self.emit(depth, "if v > %d {" % m)
+                self.probes.append((l, "contains", m))
+                self.unmapped[l] = KNOWN_IF
+                self.stmts(depth + 1, rng.randrange(1, 3), budget - 1)
+                if rng.random() < 0.5:
+                    self.emit(depth, "} else {")
+                    self.stmts(depth + 1, rng.randrange(1, 3), budget - 1)
+                self.emit(depth, "}")
+            elif k < 0.8 and budget > 0:
+                self.emit(depth, "for i := 0; i < 2; i++ {")
+                self.stmts(depth + 1, rng.randrange(1, 3), budget - 1)
+                self.emit(depth, "}")
+            elif k < 0.88 and budget > 0:
+                m1, m2 = self.mk(), self.mk()
+                self.emit(depth, "switch v {")
+                self.emit(depth, "case %d:" % m1)
+                self.stmts(depth + 1, 1, budget - 1)
+                self.emit(depth, "case %d, %d:" % (m2, m2 + 100000))
+                self.stmts(depth + 1, 1, budget - 1)
+                self.emit(depth, "default:")
+                self.stmts(depth + 1, 1, budget - 1)
+                self.emit(depth, "}")
+            elif k < 0.94 and budget > 0:
+                self.emit(depth, "func() {")
+                self.stmts(depth + 1, rng.randrange(1, 3), budget - 1)
+                self.emit(depth, "}()")
+            else:
+                m = self.mk()
+                l = self.emit(depth, 'defer println("m%d")' % m)
+                self.probes.append((l, "contains", m))
+
+    def build(self):
+        rng = self.rng
+        depth_chain = rng.randrange(1, 4)
+        kind = rng.choice(PANICS)
+        self.kind = kind
+        self.emit(0, "package main")
+        self.emit(0, "")
+        if self.with_inc:
+            self.emit(0, 'import "github.com/gopherjs/gopherjs/js"')
+            self.emit(0, "")
+        self.emit(0, "type T struct{ a, b int }")
+        self.emit(0, "")
+        self.emit(0, "var arr []int")
+        self.emit(0, "var zero int")
+        self.emit(0, "var nilT *T")
+        self.emit(0, "var nilMap map[string]int")
+        self.emit(0, "")
+        self.emit(0, "func id(x int) int { return x }")
+        self.emit(0, "")
+        # innermost function with the panic site
+        names = ["f%d" % i for i in range(depth_chain)]
+        for i, name in enumerate(names):
+            recv = rng.random() < 0.3
+            self.emit(0, ("func (t *T) %s(v int) int {" if recv else "func %s(v int) int {") % name)
+            if self.blocking and i == 0:
+                self.emit(1, "ch := make(chan int, 1)")
+                self.emit(1, "ch <- v")
+                self.emit(1, "v = <-ch")
+            self.stmts(1, rng.randrange(0, 4), 2)
+            if i == 0:
+                if kind == "index":
+                    l = self.emit(1, "v = arr[v]")
+                elif kind == "index-if":
+                    l = self.emit(1, "if arr[v] > 0 {")
+                    self.unmapped[l] = KNOWN_IF
+                    self.emit(2, "v = 0")
+                    self.emit(1, "}")
+                elif kind == "index-for":
+                    l = self.emit(1, "for arr[v] > 0 {")
+                    self.emit(2, "v = 0")
+                    self.emit(1, "}")
+                elif kind == "index-switch":
+                    l = self.emit(1, "switch arr[v] {")
+                    self.unmapped[l] = KNOWN_SWITCH
+                    self.emit(1, "case 1:")
+                    self.emit(2, "v = 0")
+                    self.emit(1, "}")
+                elif kind == "index-elseif":
+                    self.emit(1, "if v < 0 {")
+                    self.emit(2, "v = 1")
+                    l = self.emit(1, "} else if arr[v] > 0 {")
+                    self.unmapped[l] = KNOWN_IF
+                    self.emit(2, "v = 0")
+                    self.emit(1, "}")
+                elif kind == "index-closure":
+                    self.emit(1, "func() {")
+                    l = self.emit(2, "v = arr[v]")
+                    self.emit(1, "}()")
+                    self.chain.append(l)
+                    l = l - 1
+                    self.unmapped[l] = KNOWN_CLOSURE
+                elif kind == "index-return":
+                    l = self.emit(1, "return arr[v]")
+                elif kind == "index-multiline":
+                    l = self.emit(1, "v = id(")
+                    self.emit(2, "arr[v],")
+                    self.emit(1, ")")
+                elif kind == "index-call":
+                    l = self.emit(1, "v = id(arr[v]) + id(v)")
+                elif kind == "panic":
+                    l = self.emit(1, 'panic("boom")')
+                elif kind == "nilmap":
+                    l = self.emit(1, 'nilMap["k"] = v')
+                elif kind == "divide":
+                    l = self.emit(1, "v = v / zero")
+                else:
+                    l = self.emit(1, "v = nilT.a + v")
+                self.chain.append(l)
+            else:
+                prev = names[i - 1]
+                call = ("nilT.%s(v)" if self.prev_recv else "%s(v)") % prev
+                style = rng.random()
+                if style < 0.6:
+                    l = self.emit(1, "v = %s" % call)
+                elif style < 0.8:
+                    l = self.emit(1, "v = id(v) +")
+                    self.emit(3, "%s" % call)
+                else:
+                    l = self.emit(1, "if %s > 0 {" % call)
+                    if not self.blocking:          # an `if` around a blocking call is flattened and keeps its position
+                        self.unmapped[l] = KNOWN_IF
+                    self.emit(2, "v = 1")
+                    self.emit(1, "}")
+                self.chain.append(l)
+            self.prev_recv = recv
+            if kind != "index-return" or i > 0:
+                self.stmts(1, rng.randrange(0, 3), 1)
+                self.emit(1, "return v")
+            self.emit(0, "}")
+            self.emit(0, "")
+        self.emit(0, "func main() {")
+        self.emit(1, "v := 5")
+        self.stmts(1, rng.randrange(1, 4), 2)
+        if self.with_inc:
+            l = self.emit(1, 'println(js.Global.Call("jsStack", 1).String())')
+            self.inc_line = l
+            self.emit(1, 'println(js.Global.Call("jsStack", 2).String())')
+        top = names[-1]
+        l = self.emit(1, ("v = nilT.%s(v)" if self.prev_recv else "v = %s(v)") % top)
+        self.chain.append(l)
+        self.emit(1, "println(v)")
+        self.emit(0, "}")
+        return "\n".join(self.lines) + "\n"
+
+
+EXACT_TOKENS = (b"case", b"for", b"switch", b"throw", b"try", b"typeof")
+IDENT = re.compile(rb"[A-Za-z_$][A-Za-z0-9_$]*")
+FRAME = re.compile(r"^\s+at (?:(.*?) \()?(?:file://)?([^()\s]*?):(\d+):(\d+)\)?$")
+
+
+def resolve_source(name, res, files):
+    """the original file a map names -> list of lines (bytes) or None"""
+    base = os.path.basename(name)
+    if base in files and (name == base or name.startswith(res["dir"])):
+        return files[base].encode().split(b"\n")
+    cands = [name]
+    goroot_src = os.path.join(res["goroot"], "src") + "/"
+    # normalizePath (localmap off) leaves a leading slash on GOROOT/GOPATH relative names
+    rel = name[len(goroot_src):] if name.startswith(goroot_src) else name.lstrip("/")
+    if rel.startswith("github.com/gopherjs/gopherjs/"):
+        cands.append(os.path.join(C.REPO, rel[len("github.com/gopherjs/gopherjs/"):]))
+    if base.startswith("gopherjs__"):
+        cands.append(os.path.join(C.REPO, "compiler", "natives", "src", os.path.dirname(rel), base[len("gopherjs__"):]))
+    cands.append(os.path.join(res["goroot"], "src", rel))
+    cands.append(os.path.join(C.REPO, "compiler", "prelude", base))
+    if name.startswith("/repo/"):
+        cands.append(os.path.join(C.REPO, name[len("/repo/"):]))
+    for c in cands:
+        if os.path.isfile(c):
+            return open(c, "rb").read().split(b"\n")
+    return None
+
+
+def lookup(order, line0, col0):
+    """source-map lookup as Node and Chrome do it: the last mapping at or before (line, column), also when it
+    stands on an earlier generated line (multi-line JS of one Go statement); `order` is sorted by position"""
+    import bisect
+    i = bisect.bisect_right(order, (line0, col0, chr(0x10FFFF))) - 1
+    return order[i] if i >= 0 else None
+
+
+def check_program(chk, job, gen, res, stats):
+    """all program-level obligations for one compiled program; returns list of (signature|None, what, detail)"""
+    fails = []
+    minify = job["minify"]
+    tag = "minify" if minify else "plain"
+    js = res["js_map"].encode()
+    if res["non_utf8"]:
+        raise RuntimeError("out.js / map is not valid UTF-8; the JSON transport of this check would be lossy")
+    # 1. no hint byte remains
+    if res["magic"] != 0 or b"\x08" in js:
+        fails.append((None, "magic-byte-in-output", "%d bytes 0x08 in out.js" % js.count(b"\x08")))
+    # 2. same code with and without map
+    if not res["js_equal"]:
+        a, b = res["js_nomap"].encode(), js
+        first_pkg = re.compile(rb'^(\t\(function\(\) \{\n|\$packages\["[^"\n]+"\] = \(function\(\) \{\n)', re.M)
+        ma, mb = first_pkg.search(a), first_pkg.search(b)
+        ia, ib = (ma.start() if ma else -1), (mb.start() if mb else -1)
+        # .inc.js and prelude text goes through esbuild only when a map is written (filter.go:101-105): compare the rest
+        strip = re.compile(rb"\t\(function\(\) \{\n.*?\n\t\}\)\.call\(\$global\);\n", re.S)
+        ta, tb = strip.sub(b"<incjs>", a[ia:]), strip.sub(b"<incjs>", b[ib:])
+        if ia < 0 or ib < 0 or ta != tb or minify:
+            fails.append((None, "code-differs-with-map", "out.js with map differs from out.js without map outside prelude/.inc.js text"))
+        else:
+            stats["plain: prelude/.inc.js text re-printed by esbuild when a map is written"] += 1
+    m, maps = decode_map(res["map"])
+    jl = js.split(b"\n")
+    bylines = {}
+    srcs = {}
+    nonascii = 0
+    for mp in maps:
+        gl, gc, s, ol, oc, nm = mp
+        bylines.setdefault(gl, []).append(mp)
+        # 3. in range of the generated file
+        if gl >= len(jl) or gc > len(jl[gl]):
+            fails.append((None, "generated-position-out-of-range", "%d:%d (%s)" % (gl + 1, gc, s)))
+            continue
+        if any(b >= 0x80 for b in jl[gl][:gc]):
+            nonascii += 1
+        if s is None:
+            continue
+        # 4. in range of the named original file
+        if s not in srcs:
+            srcs[s] = resolve_source(s, res, job["files"])
+        L = srcs[s]
+        if L is None:
+            if os.path.basename(s) == "numberic.js":
+                fails.append((KNOWN_NUMBERIC, "original-file-missing", s))
+                L = srcs[s] = open(os.path.join(C.REPO, "compiler", "prelude", "numeric.js"), "rb").read().split(b"\n")
+            else:
+                fails.append((None, "original-file-missing", s))
+                srcs[s] = []
+                continue
+        if L == []:
+            continue
+        is_js = s.endswith(".js")
+        ol1 = ol + 1                      # VLQ lines are 0-based
+        col_ok = oc <= len(L[ol]) + (0 if is_js else 1) if ol < len(L) else False
+        if ol < 0 or ol >= len(L) or (ol == len(L) - 1 and L[ol] == b"" and oc > 1) or not col_ok:
+            fails.append((None, "original-position-out-of-range", "%s:%d:%d" % (s, ol1, oc)))
+            continue
+        # 5. JS mappings: the token at the original position is the token at the generated position
+        if is_js:
+            t = IDENT.match(L[ol][oc:])
+            if t and t.group(0) in EXACT_TOKENS:
+                g = jl[gl][gc:].lstrip(b" \t")[:len(t.group(0))]
+                stats[tag + ":js-token-probes"] += 1
+                if g != t.group(0):
+                    inc = s.endswith(".inc.js")
+                    pre = jl[gl][:gc]
+                    sig = KNOWN_JS if (inc and minify and jl[gl][gc + 12:].startswith(t.group(0))) else None
+                    fails.append((sig, "js-mapping-column", "%s:%d:%d token %r but generated text at %d:%d is %r" % (
+                        s, ol1, oc, t.group(0), gl + 1, gc, jl[gl][gc:gc + 24])))
+    order = sorted(((mp[0], mp[1], mp[2] or "", mp[3], mp[4], mp[5]) for mp in maps), key=lambda x: (x[0], x[1]))
+    stats[tag + ":mappings"] += len(maps)
+    # AsciiBeforeHints: hypothesis of columns_units
+    if nonascii:
+        fails.append((None, "ascii-before-hints", "%d mappings are preceded by non-ASCII bytes on their line" % nonascii))
+    # 6. statement starts
+    main_name = [s for s in m["sources"] if os.path.basename(s) == "main.go"]
+    nxt = {}
+    for a, b in zip(order, order[1:]):
+        nxt[(a[0], a[1])] = (b[0], b[1])
+    for (line, kind_, marker) in gen.probes:
+        cands = [mp for mp in maps if mp[2] in main_name and mp[3] == line - 1]
+        stats[tag + ":stmt-probes"] += 1
+        if not cands:
+            fails.append((gen.unmapped.get(line), "statement-without-mapping", "main.go:%d (marker %d)" % (line, marker)))
+            continue
+        mp = min(cands, key=lambda x: (x[0], x[1]))
+        gl, gc = mp[0], mp[1]
+        end = nxt.get((gl, gc))
+        seg = jl[gl][gc:] if (end is None or end[0] != gl) else jl[gl][gc:end[1]]
+        before = jl[gl][:gc].rstrip(b" \t")
+        text = seg.lstrip(b" \t")
+        mk = str(marker).encode()
+        ok = mk in text
+        if kind_ == "exact":
+            ok = text.startswith(b'console.log("m%d");' % marker)
+        boundary = before == b"" or before[-1:] in b";{}:" or before.endswith(b"*/")
+        if not ok or not boundary:
+            fails.append((None, "statement-start", "main.go:%d marker %d mapped to %d:%d where the text is %r (before: %r)" % (
+                line, marker, gl + 1, gc, seg[:40], before[-12:])))
+    # 7. stack frames of the uncaught panic, resolved through the map
+    frames = []
+    for ln in res["stderr"].split("\n"):
+        fm = FRAME.match(ln)
+        if fm and fm.group(2).endswith("out.js"):
+            frames.append((int(fm.group(3)), int(fm.group(4))))
+    resolved = []
+    for (l1, c1) in frames:
+        mp = lookup(order, l1 - 1, c1 - 1)
+        resolved.append(None if mp is None or not mp[2] else (os.path.basename(mp[2]), mp[3] + 1))
+    got = [r[1] for r in resolved if r and r[0] == "main.go"][:len(gen.chain)]
+    stats[tag + ":stack-frames"] += len(frames)
+    if not frames:
+        fails.append((None, "no-stack", "node printed no stack for the panic: %r" % res["stderr"][-300:]))
+    elif got != gen.chain:
+        without = [l for l in gen.chain if l not in gen.unmapped]
+        detail = "panic kind %s: main.go frames resolve to lines %s, statements are at %s" % (gen.kind, got, gen.chain)
+        if without != gen.chain and got[:len(without)] == without:
+            for sig in sorted(set(gen.unmapped[l] for l in gen.chain if l in gen.unmapped)):
+                fails.append((sig, "stack-frame-line", detail))
+        else:
+            fails.append((None, "stack-frame-line", detail))
+    stats[tag + ":stack-frames-without-source (glue code, if statements)"] += sum(1 for r in resolved if r is None)
+    # 8. frames inside the .inc.js helper (stack strings printed by the program)
+    if gen.with_inc:
+        inc_frames = []
+        for ln in res["stdout"].split("\n"):
+            fm = FRAME.match(ln)
+            if fm and fm.group(2).endswith("out.js") and (fm.group(1) or "").endswith("jsStack"):
+                mp = lookup(order, int(fm.group(3)) - 1, int(fm.group(4)) - 1)
+                inc_frames.append(None if mp is None or not mp[2] else (os.path.basename(mp[2]), mp[3] + 1))
+        stats[tag + ":incjs-frames"] += len(inc_frames)
+        want = [("helper.inc.js", 5), ("helper.inc.js", 9)]
+        if inc_frames != want:
+            sig = KNOWN_JS if minify and len(inc_frames) == 2 and all(f and f[0] == "helper.inc.js" for f in inc_frames) else None
+            fails.append((sig, "incjs-frame-line", "frames inside jsStack resolve to %s, want %s" % (inc_frames, want)))
+    return fails
+
+
+def prog_tie(chk, tier):
+    import collections
+    rng = chk.rng
+    nprog = 60 if tier == "thorough" else 14
+    jobs, gens = [], []
+    for i in range(nprog):
+        with_inc = i % 4 == 1
+        g = ProgGen(rng, with_inc, blocking=(i % 3 == 2))
+        src = g.build()
+        files = {"main.go": src}
+        if with_inc:
+            files["helper.inc.js"] = INC_JS
+        for minify in (False, True):
+            jobs.append({"id": "p%d%s" % (i, "m" if minify else "p"), "files": files, "minify": minify,
+                         "localmap": i % 2 == 0, "run": True, "timeout": 30})
+            gens.append(g)
+    p = C.run_gvh(["prog", "-j", "8"], [json.dumps(j) for j in jobs], name="gvh_c19",
+                  extra_env={"NODE_OPTIONS": "--stack-trace-limit=100"})
+    if p.returncode != 0:
+        raise RuntimeError("gvh_c19 prog failed: " + p.stderr[-3000:])
+    results = [json.loads(l) for l in p.stdout.split("\n") if l.strip()]
+    if len(results) != len(jobs):
+        raise RuntimeError("gvh_c19 prog answered %d results for %d jobs" % (len(results), len(jobs)))
+    stats = collections.Counter()
+    for job, g, res in zip(jobs, gens, results):
+        if res.get("err") and "compiler panic" in res["err"]:
+            # the compiler itself fell over while writing/filtering the code (e.g. a hint that cannot be read back)
+            chk.add_mismatch("programs", json.dumps({"program": job["id"], "minify": job["minify"], "what": "compiler-panic", "files": job["files"]}),
+                             impl=res["err"][:400], spec="the program compiles (it does on the unchanged tree and natively)")
+            continue
+        if res.get("err"):
+            raise RuntimeError("program %s does not compile (generator bug): %s\n%s" % (job["id"], res["err"], job["files"]["main.go"]))
+        fails = check_program(chk, job, g, res, stats)
+        tag = "prog:%s:%s%s%s" % ("minify" if job["minify"] else "plain", g.kind, ":incjs" if g.with_inc else "", ":blocking" if g.blocking else "")
+        chk.add_case("programs", job["id"] + job["files"]["main.go"], kindkey=tag,
+                     sample={"tie": "programs", "op": job["id"], "probes": len(g.probes), "chain": g.chain, "kind": g.kind})
+        seen = set()
+        for sig, what, detail in fails:
+            if (sig, what) in seen:
+                continue
+            seen.add((sig, what))
+            chk.add_mismatch("programs", json.dumps({"program": job["id"], "minify": job["minify"], "localmap": job["localmap"],
+                                                     "what": what, "files": job["files"]}),
+                             impl=detail, spec="C19 program-level obligation '%s' holds" % what, signature=sig)
+    chk.extra["program_stats"] = dict(sorted(stats.items()))
+    return len(jobs)
+
+
 def run(tier, seed):
     chk = C.Check(PID, tier, seed)
     chk.rule = ("filter: streams = random interleavings of code chunks (no 0x08; newlines, tabs, ASCII, U+00B7, raw bytes) and "
@@ -382,12 +858,29 @@ def run(tier, seed):
                        "AsciiBeforeHints (bytes before a hint on its line are ASCII) is a hypothesis of columns_units, tested on every "
                        "emitted out.js by the prog tie",
                        "original columns in Go mappings are go/token columns (1-based); the property only speaks about original lines"]
+    import time
+    t0 = time.time()
+    phases = {}
+
+    def lap(name):
+        nonlocal t0
+        phases[name] = round(time.time() - t0, 1)
+        t0 = time.time()
     C.build_gvh("gvh_c19")
+    lap("go build harness")
     chk.proof = C.check_proofs(PID, THEOREMS, tier)
+    lap("lean build + axiom audit")
     n1 = filter_tie(chk, tier)
+    lap("filter tie")
     n2 = js_tie(chk, tier)
+    lap("js tie")
     n3 = ctx_tie(chk, tier)
-    chk.extra["ops"] = {"filter": n1, "js": n2, "ctx": n3}
+    lap("ctx tie")
+    n4 = prog_tie(chk, tier)
+    lap("program tie")
+    chk.extra["phase_seconds"] = phases
+    C.log("[C19] phases: %s" % phases)
+    chk.extra["ops"] = {"filter": n1, "js": n2, "ctx": n3, "program builds": n4}
     chk.extra["exhaustive"] = False
     chk.extra["exhaustive_subspace"] = "all streams of <= 3 items over a 6-item alphabet x all admissible chunkings (<= 64 each)" if tier == "thorough" \
         else "first 43 streams (<= 2 items) of the thorough sub-space x all admissible chunkings"
